@@ -117,9 +117,9 @@ def gen(rng: random.Random, k: int, tier: str) -> dict:
                         "ntoys": rng.choice([40, 60]) if heavy else rng.choice([200, 400] if mode == "scripted" else [150, 300, 500]),
                         "mode": mode, "seed": rng.randrange(1 << 30), "route": rng.choice(["calculator", "calculator", "hypotest"]), "poi_hi": poi_hi,
                         # a POI scan on ONE calculator object: distributions() is first called at another mu
-                        "scan_first": (round(mu * (rng.choice([0.5, 2.0]) if poi_hi is None else rng.choice([0.5, 0.8])), 3) if ts != "q0" and rng.random() < 0.3 else None),
+                        "scan_first": (round(mu * (rng.choice([0.5, 2.0]) if poi_hi is None else rng.choice([0.5, 0.8])), 3) if ts != "q0" and rng.random() < 0.45 else None),
                         # order of the calls in a scan: per-mu (statistic, distributions) or all observed statistics first
-                        "scan_order": rng.choice(["interleaved", "stats_first", "stats_first"])})
+                        "scan_order": rng.choice(["interleaved", "stats_first", "stats_then_dists", "stats_then_dists"])})
         else:
             kindm = rng.choice(["shapesys", "staterror", "normsys", "histosys"])
             nb = rng.choice([1, 2])
@@ -483,12 +483,19 @@ class World:
                 else:
                     calc = pyhf.infer.calculators.ToyCalculator(data, model, ntoys=N, test_stat=ts, track_progress=False, **bkw)
                     q_first = None
-                    if op.get("scan_first") is not None and op.get("scan_order") == "stats_first":
+                    if op.get("scan_first") is not None and op.get("scan_order") in ("stats_first", "stats_then_dists"):
                         # the observed statistics of the whole scan first, the toy distributions afterwards: the last
                         # statistic evaluated before distributions(mu) belongs to ANOTHER mu
                         ctx.probe("calculator_scan_stats_first")
                         q_first = calc.teststatistic(mu)
                         calc.teststatistic(op["scan_first"])
+                        if op["scan_order"] == "stats_then_dists":
+                            # ... and the distributions of the other scan point are built first as well
+                            calc.distributions(op["scan_first"])
+                            if op["mode"] == "scripted":
+                                self.script_calls = 0
+                            else:
+                                self._seed(op["seed"])
                     elif op.get("scan_first") is not None:
                         ctx.probe("calculator_reused_for_second_poi")
                         calc.teststatistic(op["scan_first"])
